@@ -585,7 +585,15 @@ func (c *Ctx) ruleNilMap() {
 						return okRet
 					}
 				case *ssa.Const:
-					// nil origin: acceptable only if this update is guarded by a non-nil check / preceded by make on nil
+					// nil origin: acceptable only if this update is guarded by a non-nil check / preceded by make on nil,
+					// or the field holding the map is assigned a made map before every walk that writes it
+					if u, ok := mu.Map.(*ssa.UnOp); ok {
+						if fa, ok := u.X.(*ssa.FieldAddr); ok {
+							if n := P.moduleStruct(deref(fa.X.Type())); n != nil && c.assignedBeforeWalk()[fieldKey{n, fa.Field}] {
+								return true
+							}
+						}
+					}
 					return c.mapNilHandled(mu)
 				case *ssa.Lookup, *ssa.Extract, *ssa.UnOp:
 					return c.mapNilHandled(mu) || c.mapMadeBefore(mu)
